@@ -133,8 +133,8 @@ def render(text: str, silent: bool = False) -> str:
                 pattern = params[1:]
                 skip: bool
                 try:
-                    # Full-string match (`$` would also match before a trailing line break).
-                    skip = re.match(f'^{pattern}\\Z', value) is None
+                    # Full-string match (of the pattern as a whole: '^a|b$' would match any value that starts with an 'a').
+                    skip = re.fullmatch(pattern, value) is None
                 except:
                     if not silent:
                         options.errorCallback(f'illegal macro regular expression: {pattern}: {text}')
